@@ -73,12 +73,21 @@ pub fn gen(tier: &str, seed: u64) -> Gen {
     for s in &stacks {
         for r in &raises {
             if thorough || s.len() < 3 || rng.chance(1, 4) {
-                cases.push(mk(r.clone(), s));
+                let mut c = mk(r.clone(), s);
+                // one case in four runs after caught failures earlier in the same evaluation (a body
+                // that does not parse, an unknown command, a wrong argument count): they leave no trace
+                if rng.chance(1, 4) {
+                    let pre = ["catch {if 1 \"set x \\{\"}; ", "catch {nosuchcmd}; catch {expr {1 +}}; ", "proc z9 {a} {}; catch {z9}; catch {z9 1 2}; "][rng.below(3)];
+                    let parts = c.as_list().to_vec();
+                    let text = format!("{}{}", pre, parts[2].as_str());
+                    c = tl(vec![parts[0].clone(), parts[1].clone(), ts(&text)]);
+                }
+                cases.push(c);
                 n += 1;
             }
         }
     }
-    (cases, vec![(format!("{} raising commands (7 codes x levels 0-3, plain return/break/continue/error) x every stack of frames of depth<={} over proc/while/for/foreach/catch/if", raises.len(), maxdepth), n, thorough)])
+    (cases, vec![(format!("{} raising commands (7 codes x levels 0-3, plain return/break/continue/error) x every stack of frames of depth<={} over proc/while/for/foreach/catch/if, a quarter of them after caught failures in the same evaluation", raises.len(), maxdepth), n, thorough)])
 }
 
 pub fn run(case: &Term) -> Term {
